@@ -74,6 +74,7 @@ package parser
 //@   ensures [vallen] len(result.Value) <= len(l.input)
 //@   ensures [progress] l.pos > old(l.pos)
 //@   ensures [span] result.Pos.Offset == old(l.pos) && result.End.Offset == l.pos && result.Type == TokenNumber
+//@   ensures [C02:number_takes_its_marks] l.pos == len(l.input) || (l.input[l.pos] != '.' && l.input[l.pos] != ',' && (l.input[l.pos] < '0' || l.input[l.pos] > '9'))
 //@   ensures [posvalid] result.Pos.Line >= 1 && result.Pos.Column >= 1 && result.Pos.Line <= len(l.input) + 1 && result.Pos.Column <= len(l.input) + 1
 //@   modifies l.pos, l.column
 //@   loop 1 invariant LexInv(l) && Pos16(l) && l.input == old(l.input) && l.atStart == old(l.atStart) && l.line == old(l.line)
